@@ -790,6 +790,59 @@ impl KalmanFilter {
     }
 }
 
+#[cfg(feature = "verif")]
+impl KalmanFilter {
+    /// Verification hook (feature `verif`): the complete servo state as bit
+    /// patterns. Read-only.
+    pub fn verif_state(&self) -> std::string::String {
+        use std::{format, string::String, vec::Vec};
+        fn h(x: f64) -> String {
+            format!("{:016x}", x.to_bits())
+        }
+        fn base(f: &BaseFilter) -> String {
+            match &f.0 {
+                None => "-".into(),
+                Some(i) => {
+                    let mut v: Vec<String> = Vec::new();
+                    for k in 0..3 {
+                        v.push(h(i.state.ventry(k)));
+                    }
+                    for r in 0..3 {
+                        for c in 0..3 {
+                            v.push(h(i.uncertainty.entry(r, c)));
+                        }
+                    }
+                    v.push(format!("{}", i.filter_time.nanos().to_bits()));
+                    v.join(",")
+                }
+            }
+        }
+        fn td(x: &Option<(Time, Duration)>) -> String {
+            match x {
+                None => "-".into(),
+                Some((t, d)) => format!("{}:{}", t.nanos().to_bits(), d.nanos().to_bits()),
+            }
+        }
+        let e = &self.measurement_error_estimator;
+        let data: Vec<String> = e.data.iter().map(|x| h(*x)).collect();
+        format!(
+            "run={} wan={} ws={} w={} wme={} cur={} est={},{},{},{},{} data={}",
+            base(&self.running_filter),
+            base(&self.wander_filter),
+            self.wander_score,
+            h(self.wander),
+            h(self.wander_measurement_error),
+            self.cur_frequency.map(h).unwrap_or_else(|| "-".into()),
+            e.fill,
+            e.next_idx,
+            e.peer_delay_detected as u8,
+            td(&e.last_sync),
+            td(&e.last_delay),
+            data.join(","),
+        )
+    }
+}
+
 #[cfg(test)]
 mod tests {
     use super::*;
